@@ -188,7 +188,8 @@ the session ends with an exception and the only calls before the `finally` part 
 (Partial with respect to the design's `C12_bad_handshake`: the case "wrong/short/missing sync
 string" is covered by the ordering theorem — no `hsOk`, hence no start — and by the model's
 `if init ≠ expected then raise Fatal`; the formal link between the bytes assembled by the
-monadic reads here and `Handshake.handshake` of C07 is not proved.) -/
+monadic reads here and `Handshake.handshake` of C07 is proved in `Props/C12_Handshake.lean`, which
+states the full `C12_bad_handshake` on the bytes the server sent.) -/
 theorem C12_bad_handshake_partial (sc : Script) (h : sc.cfg.poll0.isSome) :
     (∃ x, (run sc).1 = .error x) ∧ ∀ e ∈ (run sc).2.trace, isFwWrite e = false := by
   -- `_main` stops inside the start-up checks
